@@ -7,6 +7,8 @@ import (
 	protocol "github.com/hujm2023/go-sms-protocol"
 	"github.com/hujm2023/go-sms-protocol/cmpp"
 	"github.com/hujm2023/go-sms-protocol/datacoding"
+	gsm7 "github.com/hujm2023/go-sms-protocol/datacoding/gsm7encoding"
+	"golang.org/x/text/transform"
 )
 
 // Family "text" (C05): the text codecs, the UCS-2 helpers and the
@@ -41,6 +43,10 @@ func genText(g *genCtx) {
 	n := 0
 	emit := func(c Case) {
 		if g.mine(n) {
+			// every third call is made after a series of refused calls on the same goroutine (see afterRefusals)
+			if k := caseStr(c, "k"); n%3 == 1 && (k == "codec" || k == "content") {
+				c["pre"] = 1 + n/3
+			}
 			g.emit(c)
 		}
 		n++
@@ -168,7 +174,47 @@ func genText(g *genCtx) {
 	}
 }
 
+// afterRefusals makes the calls a gateway makes on malformed traffic - every decoder on a valid prefix followed
+// by something it must refuse, every encoder on a text it cannot represent - and discards the results.  A judged
+// call that follows must behave as if they had never happened (the properties hold for every history).
+func afterRefusals(k int) {
+	bad := []byte{0x41, 0x43, 0x45, 0x1b, 0x01}
+	txt := "ACE[\u4e2d"
+	ctx := context.Background()
+	calls := []func(){
+		func() { _, _ = gsm7.Decode(bad) },
+		func() { _, _, _ = transform.Bytes(gsm7.GSM7(false).NewDecoder(), bad) },
+		func() { _, _, _ = transform.Bytes(gsm7.GSM7(true).NewDecoder(), gsm7.Pack(bad)) },
+		func() { _, _ = datacoding.GSM7Unpacked(bad).Decode() },
+		func() { _, _ = datacoding.GSM7Packed(gsm7.Pack(bad)).Decode() },
+		func() { _, _ = gsm7.Encode(txt) },
+		func() { _, _, _ = transform.Bytes(gsm7.GSM7(false).NewEncoder(), []byte(txt)) },
+		func() { _, _, _ = transform.Bytes(gsm7.GSM7(true).NewEncoder(), []byte(txt)) },
+		func() { _, _ = protocol.DecodeSMPPCContent(ctx, string(gsm7.Pack(bad)), 0) },
+		func() { _, _ = protocol.DecodeSMPPCContent(ctx, "\x00A\xd8", 8) },
+		func() { _, _ = protocol.DecodeCMPPCContent(ctx, "AB\x81", 15) },
+		func() { _, _ = protocol.DecodeCMPPCContent(ctx, "AB", 77) },
+	}
+	for _, c := range textCodings {
+		c := c
+		calls = append(calls,
+			func() { _, _ = codecFor(c, []byte(txt+"\U0001F600")).Encode() },
+			func() { _, _ = codecFor(c, []byte("AB\x81")).Decode() },
+			func() { _, _ = codecFor(c, []byte("\x00A\xd8")).Decode() })
+	}
+	guard(func() {
+		for _, f := range calls {
+			f()
+		}
+		// ... and one of them is the last thing that happened before the judged call
+		calls[k%len(calls)]()
+	})
+}
+
 func runText(c Case, tr *Tracer) {
+	if k := caseInt(c, "pre"); k > 0 {
+		afterRefusals(k)
+	}
 	switch caseStr(c, "k") {
 	case "codec":
 		coding := caseStr(c, "coding")
